@@ -537,3 +537,21 @@ impl StandardLinearModel {
         self.to_string()
     }
 }
+
+#[cfg(feature = "verif-hooks")]
+impl StandardLinearModel {
+    /// verification hook: (variables, objective, rows as (coefficients, rhs), offset, flip)
+    #[allow(clippy::type_complexity)]
+    pub fn verif_parts(&self) -> (Vec<String>, Vec<f64>, Vec<(Vec<f64>, f64)>, f64, bool) {
+        (
+            self.variables.clone(),
+            self.objective.clone(),
+            self.constraints
+                .iter()
+                .map(|c| (c.coefficients.clone(), c.rhs))
+                .collect(),
+            self.objective_offset,
+            self.flip_objective,
+        )
+    }
+}
